@@ -798,71 +798,69 @@ def _fact_key_eq(ctx: Ctx, fi: FunctionInfo, fs, pv, const: str) -> Optional[boo
     return None
 
 
+class OneOfText(str):
+    """A text with accepted alternative spellings (compares equal to any of them)."""
+
+    def __new__(cls, *alts):
+        o = str.__new__(cls, alts[0])
+        o.alts = tuple(alts)
+        return o
+
+    def __eq__(self, other):
+        return other in self.alts
+
+    def __ne__(self, other):
+        return other not in self.alts
+
+    __hash__ = str.__hash__
+
+
 def sm_chart_reader(ctx: Ctx) -> None:
-    """C01.1 reader side / C03.3: six stripped fields zipped with the table, extras sliced from len(table), fewer -> ValueError."""
+    """C01.1 reader side / C03.3 / C04: fewer than six components -> ValueError before anything is stored; the six fields are stored stripped under
+    their table keys; further components become extradata; nothing else is stored."""
     p = ctx.p
     fi = p.func(FROM_MSD)
-    cfg = ctx.cfg(fi)
     table = tuple(p.const("simfile.sm", "SM_CHART_PROPERTIES"))
     n = len(table)
     vparam = fi.param_names()[1]
     sn = fi.param_names()[0]
-    # zip loop
-    loops = []
-    for lp in for_loops(fi):
-        it = lp.iter
-        if isinstance(it, ast.Call) and isinstance(it.func, ast.Name) and it.func.id == "zip" and len(it.args) == 2:
-            a0 = try_ev(ctx, fi, it.args[0])
-            if a0 is not None and tuple(a0) == table and isinstance(it.args[1], ast.Name) and it.args[1].id == vparam:
-                loops.append(lp)
-    lp = one(loops, f"'for property, value in zip(SM_CHART_PROPERTIES, values)' loop in {FROM_MSD}")
-    require(isinstance(lp.target, ast.Tuple) and len(lp.target.elts) == 2 and all(isinstance(e, ast.Name) for e in lp.target.elts),
-            f"{FROM_MSD}: zip loop target has an unrecognised shape")
-    kn, vn = lp.target.elts[0].id, lp.target.elts[1].id
-    stores = [s for s in walk_body(lp) if isinstance(s, ast.Assign) and len(s.targets) == 1 and isinstance(s.targets[0], ast.Subscript)
-              and isinstance(s.targets[0].value, ast.Name) and s.targets[0].value.id == sn]
-    st = one(stores, f"store self[property] = ... in {FROM_MSD}")
-    ctx.expect("R-TABLE", fi, "field stored under its table key", isinstance(st.targets[0].slice, ast.Name) and st.targets[0].slice.id == kn,
-               src(st.targets[0]), f"store target is {src(st.targets[0])}", node=st)
-    v = st.value
-    stripped = (isinstance(v, ast.Call) and isinstance(v.func, ast.Attribute) and v.func.attr == "strip" and not v.args and not v.keywords
-                and isinstance(v.func.value, ast.Name) and v.func.value.id == vn)
-    ctx.expect("R-WS", fi, "each of the six fields is strip()ped", stripped, src(v),
-               f"stored value is {src(v)}: the writer's line-break/indent decoration would become part of the field", node=st)
-    bad = loop_must_pass(cfg, lp, [cfg_node_of(cfg, fi, st)])
-    ctx.expect("R-ORDER", fi, "every zipped field is stored", bad is None and not [x for x in walk_body(lp) if isinstance(x, (ast.Continue, ast.Break))],
-               "", "an iteration of the field loop can skip its store", node=lp)
-    # ValueError guard dominates the loop
-    lnode = cfg.node_for(lp)
-    guard_ok = False
-    for node in body_walk(fi.node):
-        if isinstance(node, ast.Raise):
-            exc = node.exc.func if isinstance(node.exc, ast.Call) else node.exc
-            if isinstance(exc, ast.Name) and exc.id == "ValueError":
-                fs = facts(ctx, fi, node)
-                for atom, pol in fs:
-                    if pol and _is_len_cmp(ctx, fi, atom, vparam, n, "lt"):
-                        guard_ok = True
-    # the raise must precede the loop: the loop is only reached when the guard is false
-    loop_facts = facts(ctx, fi, lp)
-    loop_guarded = any((not pol) and _is_len_cmp(ctx, fi, atom, vparam, n, "lt") for atom, pol in loop_facts)
-    ctx.expect("R-ORDER", fi, "fewer than six components -> ValueError before anything is stored", guard_ok and loop_guarded,
-               "", "the 'len(values) < len(SM_CHART_PROPERTIES) -> raise ValueError' guard is missing, weaker, or does not precede the store loop", node=lp)
-    # extradata
-    ex = [s for s in body_walk(fi.node) if isinstance(s, ast.Assign) and len(s.targets) == 1 and self_attr(s.targets[0], sn) == "extradata"]
-    e = one(ex, f"assignment of self.extradata in {FROM_MSD}")
-    val = e.value
-    if isinstance(val, ast.Call) and isinstance(val.func, ast.Name) and val.func.id == "list" and len(val.args) == 1:
-        val = val.args[0]
-    good = (isinstance(val, ast.Subscript) and isinstance(val.value, ast.Name) and val.value.id == vparam and isinstance(val.slice, ast.Slice)
-            and val.slice.upper is None and val.slice.step is None and val.slice.lower is not None and try_ev(ctx, fi, val.slice.lower) == n)
-    ctx.expect("R-TABLE", fi, "extradata = components after the six fields", good, src(e.value),
-               f"extradata is {src(e.value)}; the writer appends extras right after field {n}", node=e)
-    fs = facts(ctx, fi, e)
-    gt = any(pol and _is_len_cmp(ctx, fi, atom, vparam, n, "gt") for atom, pol in fs)
-    uncond = not [a for a, pol in fs if not _is_len_cmp(ctx, fi, a, vparam, n, "lt")]
-    ctx.expect("R-TABLE", fi, "extradata stored whenever there are more than six components", gt or uncond, unparse_facts(fs),
-               f"extradata is stored under {unparse_facts(fs)}", node=e)
+    from .tables import Dec, judge as tjudge, sums_of as tsums, touches
+    sums = tsums(ctx, fi)
+    loops = {(ast.unparse(e.target), e.line) for s_ in sums for e in s_.effects if e.kind == "for" and ast.unparse(e.value) == f"zip({table!r}, {vparam})"}
+    allloops = {e.line for s_ in sums for e in s_.effects if e.kind == "for"}
+    ctx.expect("R-TABLE", fi, "the components are zipped with SM_CHART_PROPERTIES in table order", len(loops) == 1 and len(allloops) == 1, str(sorted(loops)), f"loops: {sorted(loops)} of {len(allloops)}", node=fi.node)
+    if not (len(loops) == 1 and len(allloops) == 1):
+        return
+    tgt, line = next(iter(loops))
+    tt = ast.parse(tgt, mode="eval").body
+    require(isinstance(tt, ast.Tuple) and len(tt.elts) == 2 and all(isinstance(e, ast.Name) for e in tt.elts), f"{FROM_MSD}: zip loop target has an unrecognised shape")
+    kn, vn = tt.elts[0].id, tt.elts[1].id
+    LT, GT = f"len({vparam}) < {n}", f"len({vparam}) > {n}"
+    decs = []
+    for s_ in sums:
+        if s_.end != "raise" and not any(e.kind == "for" for e in s_.effects):
+            continue  # zero fields zipped: impossible once the length guard has passed
+        eff = []
+        for e in s_.effects:
+            if e.kind == "raise":
+                ex = e.value.func if isinstance(e.value, ast.Call) else e.value
+                eff.append("raise " + (ast.unparse(ex) if ex is not None else ""))
+            elif e.kind in ("store", "aug", "delete", "expr") and touches(e, [sn]):
+                eff.append(e.text)
+        decs.append(Dec(dict(s_.plain_assign()), tuple(eff), s_))
+
+    def spec(a):
+        if a[LT]:
+            return ("raise ValueError",)
+        out = (f"{sn}[{kn}] = {vn}.strip()",)
+        if a[GT]:
+            return out + (OneOfText(f"{sn}.extradata = list({vparam}[{n}:])", f"{sn}.extradata = {vparam}[{n}:]"),)
+        return out
+
+    tjudge(ctx, "R-WS", fi, "fewer than six components -> ValueError before anything is stored; each of the six fields is stored strip()ped under its table key; "
+           "components after the six become extradata; nothing else is stored or changed afterwards", decs, [LT, GT], spec,
+           equiv={f"len({vparam}) >= {n + 1}": (GT, True), f"len({vparam}) <= {n - 1}": (LT, True), f"{vparam}[{n}:]": (GT, True)},
+           why="the writer's line-break/indent decoration must not become part of a field, and a loaded field must not be altered beyond that (a second load would alter it again)")
     # _parse: NOTES key check and components[1:]
     fp = p.func(PARSERS["sm_chart"])
     pv = _param_vars(ctx, fp)
